@@ -947,6 +947,7 @@ def run(ctx):
     # JAX work in forked workers (forked before this process imports jax)
     nw = int(os.environ.get("C12_WORKERS", "6" if ctx.quick else "8"))
     cases = cases + cases32
+    I.prune_cache()
     with mp.get_context("fork").Pool(nw, initializer=_silence) as pool:
         st_async = pool.apply_async(_selftest, (0,))
         results = pool.map(_work, cases, chunksize=1)
